@@ -83,8 +83,16 @@ static void arbitrary_buf(void)
   B->alloc_buf     = store;
   B->alloc_buf_len = AL;
   B->data          = store;
-  B->data_len      = vp_range(0, AL - 1);
-  B->offset        = vp_range(0, AL - 1);
+#  ifdef DLO
+  B->data_len = vp_range(DLO, DHI); /* job covers this slice of the data_len range */
+#  else
+  B->data_len = vp_range(0, AL - 1);
+#  endif
+#  ifdef OFF
+  B->offset = OFF;
+#  else
+  B->offset = vp_range(0, AL - 1);
+#  endif
   VP_ASSUME(B->offset <= B->data_len);
 #elif AL < 0
   store = vp_malloc(CL); /* not owned by the buffer */
@@ -93,10 +101,14 @@ static void arbitrary_buf(void)
   B->data_len = CL;
   B->offset   = vp_range(0, CL);
 #endif
+#ifdef TAG
+  B->tag_offset = TAG;
+#else
   if (vp_bool()) {
     B->tag_offset = vp_range(0, DL);
     VP_ASSUME(B->tag_offset <= B->offset);
   }
+#endif
   VP_ASSUME(inv(B));
   S_len   = B->data_len;
   S_off   = B->offset;
@@ -118,7 +130,9 @@ static void expect_exact(size_t shift, size_t elen, size_t eoff, size_t etag)
   VP_ASSERT(B->tag_offset == etag, "tag as the model says");
   VP_ASSERT(B->alloc_buf_len == S_alloc, "allocation size unchanged");
   VP_ASSERT(AL == 0 || B->data == store, "storage not moved");
-  for (i = 0; i < elen && i + shift < S_len; i++)
+  /* "for all i" through one arbitrary index (a loop of byte compares does not close) */
+  i = vp_size();
+  if (i < elen && i + shift < S_len)
     VP_ASSERT(B->data[i] == S_bytes[i + shift], "stored bytes as the model says");
 }
 
@@ -137,13 +151,16 @@ static void expect_views(const unsigned char *x, size_t k)
   const unsigned char *p;
   size_t               dropped;
   VP_ASSERT(inv(B), "representation invariant holds (incl. NUL reserve: data_len < alloc_buf_len)");
+
   VP_ASSERT(ares_buf_len(B) == rem0 + k, "unread length = old unread + appended");
   p = ares_buf_peek(B, &n);
   VP_ASSERT(n == rem0 + k, "peek length = unread length");
   VP_ASSERT((p != NULL) == (n != 0), "peek pointer iff data");
-  for (i = 0; i < rem0; i++)
+  /* "for all i" through one arbitrary index (a loop of byte compares does not close) */
+  i = vp_size();
+  if (i < rem0)
     VP_ASSERT(p[i] == S_bytes[S_off + i], "old unread bytes kept, in order");
-  for (i = 0; i < k; i++)
+  if (i < k)
     VP_ASSERT(p[rem0 + i] == x[i], "appended bytes follow the old unread bytes");
   /* what may have been dropped from the front: nothing, or exactly the reclaimable prefix */
   dropped = S_off - B->offset;
@@ -157,7 +174,7 @@ static void expect_views(const unsigned char *x, size_t k)
     const unsigned char *t  = ares_buf_tag_fetch(B, &tl);
     VP_ASSERT(B->tag_offset == S_tag - dropped, "tag moved with the data");
     VP_ASSERT(t != NULL && tl == S_off - S_tag, "tagged span length kept");
-    for (i = 0; i < tl; i++)
+    if (i < tl)
       VP_ASSERT(t[i] == S_bytes[S_tag + i], "tagged bytes kept (reclaim respects the tag)");
   }
 }
@@ -199,7 +216,11 @@ void harness(void)
 
   switch (op) {
     case 0: /* append k bytes */
-      k  = vp_range(0, KMAX);
+#ifdef K
+      k = K;
+#else
+      k = vp_range(0, KMAX);
+#endif
       st = ares_buf_append(B, x, k);
       if (S_const && k != 0) {
         VP_ASSERT(st == ARES_EFORMERR, "append to a const buffer is refused");
@@ -254,7 +275,11 @@ void harness(void)
       break;
     }
     case 4: { /* append_start / write / append_finish */
+#ifdef K
+      size_t         want = K;
+#else
       size_t         want = vp_range(0, KMAX);
+#endif
       size_t         len  = want;
       unsigned char *p    = ares_buf_append_start(B, &len);
       if (S_const || want == 0) {
@@ -275,8 +300,12 @@ void harness(void)
       break;
     }
     case 5: { /* ensure_space (static) */
+#ifdef K
+      size_t need = K;
+#else
       size_t need = vp_range(0, KMAX);
-      st          = ares_buf_ensure_space(B, need);
+#endif
+      st = ares_buf_ensure_space(B, need);
       if (S_const) {
         VP_ASSERT(st == ARES_EFORMERR, "ensure_space refused on a const buffer");
         expect_unchanged();
